@@ -69,6 +69,10 @@ def make_data(kind, n, rng):
     if kind == 'blobs':
         X = np.vstack([r.normal([0.3, 0.3], 0.08, (n // 2, 2)), r.normal([0.7, 0.6], 0.1, (n - n // 2, 2))])
         y = np.array([1.0] * (n // 2) + [-1.0] * (n - n // 2))
+    elif kind == 'cluster':       # one tight cluster off the centre plus two corner samples: one-sided refinement, the tree is rebalanced early
+        X = np.vstack([r.normal([0.8, 0.3], 0.05, (n - 2, 2)), [[0.0, 0.0], [1.0, 1.0]]])
+        y = np.where(r.rand(n) < 0.5, 1.0, -1.0)
+        return np.clip(X, 0.0, 1.0), y
     elif kind == 'lattice':       # samples exactly on dyadic grid lines
         X = r.randint(1, 16, (n, 2)) / 16.0
         y = np.where(r.rand(n) < 0.5, 1.0, -1.0)
@@ -78,7 +82,7 @@ def make_data(kind, n, rng):
     return np.clip(X, 0.01, 0.99), y
 
 
-def de_run(data, classes, lam, lump, reuse, budget, lmin, lmax):
+def de_run(data, classes, lam, lump, reuse, budget, lmin, lmax, rebalancing=False):
     from sparseSpACE.GridOperation import DensityEstimation
     from sparseSpACE.Grid import GlobalTrapezoidalGrid
     from sparseSpACE.spatiallyAdaptiveSingleDimension2 import SpatiallyAdaptiveSingleDimensions2
@@ -88,7 +92,7 @@ def de_run(data, classes, lam, lump, reuse, budget, lmin, lmax):
     grid = GlobalTrapezoidalGrid(a=a, b=b, modified_basis=False, boundary=False)
     op = DensityEstimation(np.array(data), D, grid=grid, lambd=lam, masslumping=lump, classes=None if classes is None else np.array(classes),
                            reuse_old_values=reuse, numeric_calculation=False, pre_scaled_data=True)
-    combi = SpatiallyAdaptiveSingleDimensions2(a, b, operation=op, margin=0.5, rebalancing=False)
+    combi = SpatiallyAdaptiveSingleDimensions2(a, b, operation=op, margin=0.5, rebalancing=rebalancing)
     with impl.quiet(), impl.watchdog(600):
         combi.performSpatiallyAdaptiv(lmin, lmax, ErrorCalculatorSingleDimVolumeGuided(), 0.0, max_evaluations=budget, print_output=False)
     X = [(0.1 + 0.8 * i / 6, 0.1 + 0.8 * j / 6) for i in range(7) for j in range(7)] + [(0.5, 0.5), (0.25, 0.75), (0.125, 0.5)]
@@ -100,17 +104,22 @@ def de_run(data, classes, lam, lump, reuse, budget, lmin, lmax):
 
 
 def two_run(rep, tier, rng):
-    cases = [('blobs', 120, 0.01, False, True, 2, 4), ('lattice', 80, 0.05, True, False, 2, 4), ('diag', 150, 0.02, False, True, 2, 4), ('lattice', 150, 0.02, False, False, 3, 5)]
+    cases = [('blobs', 120, 0.01, False, True, 2, 4), ('lattice', 80, 0.05, True, False, 2, 4), ('diag', 150, 0.02, False, True, 2, 4), ('lattice', 150, 0.02, False, False, 3, 5),
+             # tree rebalancing on (the default of the strategy): level assignments of existing points change between two evaluations
+             ('cluster', 102, 0.02, False, False, 3, 5, True), ('diag', 120, 0.01, False, True, 2, 4, True)]
     if tier == 'thorough':
-        cases += [('blobs', 300, 0.0, True, False, 2, 4), ('lattice', 200, 0.02, False, True, 2, 4), ('diag', 100, 1.0, False, False, 1, 3), ('blobs', 200, 0.001, False, True, 3, 4)]
-    for kind, n, lam, lump, with_classes, lmin, lmax in cases:
+        cases += [('blobs', 300, 0.0, True, False, 2, 4), ('lattice', 200, 0.02, False, True, 2, 4), ('diag', 100, 1.0, False, False, 1, 3), ('blobs', 200, 0.001, False, True, 3, 4),
+                  ('lattice', 150, 0.02, False, False, 3, 5, True), ('blobs', 200, 0.001, False, True, 3, 4, True)]
+    for case in cases:
+        kind, n, lam, lump, with_classes, lmin, lmax = case[:7]
+        rebal = len(case) > 7 and case[7]
         data, y = make_data(kind, n, rng)
         classes = y if with_classes else None
-        for budget in ([60, 400, 900] if tier == 'quick' else [40, 120, 300, 600, 1200]):
-            name = '%s n=%d lambda=%s lumping=%s classes=%s (%d,%d) budget=%d' % (kind, n, lam, lump, with_classes, lmin, lmax, budget)
+        for budget in (([60, 400, 900] if kind != 'cluster' else [400, 1500]) if tier == 'quick' else [40, 120, 300, 600, 1200, 1500]):
+            name = '%s n=%d lambda=%s lumping=%s classes=%s (%d,%d) budget=%d%s' % (kind, n, lam, lump, with_classes, lmin, lmax, budget, ' rebalancing' if rebal else '')
             try:
-                s0, u0, d0, big0 = de_run(data, classes, lam, lump, False, budget, lmin, lmax)
-                s1, u1, d1, big1 = de_run(data, classes, lam, lump, True, budget, lmin, lmax)
+                s0, u0, d0, big0 = de_run(data, classes, lam, lump, False, budget, lmin, lmax, rebalancing=rebal)
+                s1, u1, d1, big1 = de_run(data, classes, lam, lump, True, budget, lmin, lmax, rebalancing=rebal)
             except impl.Timeout:
                 rep.exclude(name + ': timeout')
                 continue
